@@ -1,5 +1,6 @@
 import RtenVerif.Lemmas.PlanCache
 import RtenVerif.Props.C02
+import RtenVerif.Lemmas.ExecutorDemoOps
 /-!
 # C25.T2 for the modelled planner — no hypothesis about the plan cache left open
 
@@ -227,6 +228,45 @@ theorem c25_T2_sequence_exec_fresh (ops : Executor.Ops V) (g : Graph) (consts : 
     SeqEquivX (runSeqX ops g consts none qs) (qs.map (fun q => (runReqX ops g consts none q).1)) :=
   c25_T2_sequence_exec ops g consts qs none True.intro ha
 
+/-! ## The plan caches of subgraphs (`If` branches, `Loop` bodies)
+
+`run_subgraph` fills the `cached_plan` of the branch / body graph, and that cache survives the
+run as well.  `Assumptions.noCaptures` restricts `c25_T2_sequence_exec` to the top-level graph, whose
+subgraph operators are abstract functions (`Ops.run`).  That this abstraction does not hide a
+history dependence through the nested caches is the following: a subgraph operator always issues
+the *same* `(input_ids, output_ids)` to its body graph (`If`: no inputs and the branch's
+`output_ids()`; `Loop`: the body's input ids in order and its `output_ids()`), so the body's cache
+only ever sees one request, and for such a cache `get_cached_plan` is literally `create_plan`
+(b-C22C26's `getCachedPlan_fixed_request`): every nested `run_plan` of every run executes exactly
+the plan a freshly loaded model would create — not merely an equivalent one. -/
+
+/-- The plans `get_cached_plan` hands a subgraph operator in `n` successive calls with its fixed
+request, starting from cache content `c`. -/
+def subPlans (g : Graph) (ins outs : List Nat) : Nat → Option CachedPlan → List (Except PlanError (List Nat))
+  | 0, _ => []
+  | n + 1, c =>
+    (getCachedPlan .fixed g true c ins outs).1 ::
+      subPlans g ins outs n (getCachedPlan .fixed g true c ins outs).2
+
+/-- **C25.T2, nested caches.** Whatever earlier runs (of the fixed request) left in a body graph's
+plan cache, every later call is handed exactly `create_plan`'s answer for a cold cache — the same
+plan, or the same planning error.  Hence the nested `run_plan` calls, and with them the subgraph
+operator as a function of its inputs and captured values, do not depend on the run history. -/
+theorem c25_T2_subgraph_cache (g : Graph) (ins outs : List Nat) :
+    ∀ (n : Nat) (cache : Option CachedPlan), FixedCache g true ins outs cache →
+      subPlans g ins outs n cache = List.replicate n (createPlan g ins outs (cacheOpts true)) := by
+  intro n
+  induction n with
+  | zero => intro _ _; rfl
+  | succ n ih =>
+    intro cache h
+    obtain ⟨h1, h2⟩ := getCachedPlan_fixed_request h
+    simp only [subPlans, List.replicate_succ]
+    rw [h1, ih _ h2]
+
+/-- The cache of a freshly loaded model is of that form. -/
+theorem fixedCache_cold (g : Graph) (ins outs : List Nat) : FixedCache g true ins outs none := True.intro
+
 /-! ## Closed example: an order-sensitive planner and a cache hit with the "other" plan -/
 
 section Example
@@ -291,6 +331,92 @@ theorem exec_example_T2 :
 theorem exec_example_values :
     runSeqX okOps twoFailing (fun _ => 0) none exReqs = [.ok [3, 4], .ok [4, 3]] ∧
     exReqs.map (fun q => (runReqX okOps twoFailing (fun _ => 0) none q).1) = [.ok [3, 4], .ok [4, 3]] := by
+  decide
+
+/-! ### A closed example with in-place operators
+
+`0:x 1:a 2:b  3: a = F(x)  4: b = G(x)`, both operators in-place capable (`Add`-like, value
+dependent: `Lemmas/ExecutorDemoOps.lean`), `x = 10` passed **by value**.  Whichever operator the
+plan schedules second takes `x` in place; the plan order depends on the order of the requested
+outputs, and the second request is served with the first one's cached plan. -/
+
+def ipG : Graph :=
+  { nodes := [.value, .value, .value,
+      .operator { inputs := [some 0], outputs := [some 1], inPlace := true },
+      .operator { inputs := [some 0], outputs := [some 2], inPlace := true }] }
+
+def ipOps : Executor.Ops Nat := Executor.sumOps (fun i => if i = 3 ∨ i = 4 then [0] else [])
+
+def ipReqs : List (ReqX Nat) :=
+  [{ ins := [(0, true, 10)], outs := [1, 2] }, { ins := [(0, true, 10)], outs := [2, 1] }]
+
+theorem ipG_getOp_lt {p : Nat} {op : OpNode} (hop : getOp ipG p = some op) : p < 5 := by
+  unfold getOp getNode at hop
+  by_cases hi : p < 5
+  · exact hi
+  · have : ipG.nodes[p]? = none := by
+      apply List.getElem?_eq_none; simp [ipG]; omega
+    rw [this] at hop; simp at hop
+
+theorem ipG_unique : UniqueProducer ipG := by
+  intro p op v hop hv
+  have hi := ipG_getOp_lt hop
+  have : p = 0 ∨ p = 1 ∨ p = 2 ∨ p = 3 ∨ p = 4 := by omega
+  rcases this with rfl | rfl | rfl | rfl | rfl <;>
+    simp [getOp, getNode, ipG] at hop <;> subst hop <;>
+    simp [opOutputs] at hv <;> subst hv <;> decide
+
+theorem ipRun_wf (q : ReqX Nat) (hq : q ∈ ipReqs) : Executor.WF (mkRun ipG (fun _ => 0) q) := by
+  have hb : ∀ v, (mkRun ipG (fun _ => (0 : Nat)) q).borrowed v = none := by
+    intro v
+    simp only [ipReqs, List.mem_cons, List.mem_nil_iff, or_false] at hq
+    rcases hq with rfl | rfl <;> simp [mkRun, findIn]
+  have ho : ∀ v, (mkRun ipG (fun _ => (0 : Nat)) q).owned v ≠ none → v = 0 := by
+    intro v hv
+    simp only [ipReqs, List.mem_cons, List.mem_nil_iff, or_false] at hq
+    rcases hq with rfl | rfl <;>
+      · simp only [mkRun, findIn, List.find?_cons, List.find?_nil] at hv
+        by_cases h0 : v = 0
+        · exact h0
+        · have : ((0 : Nat) == v) = false := by simp; omega
+          simp [this] at hv
+  refine ⟨rfl, fun v _ => hb v, ?_, ?_⟩
+  · intro v hv
+    rw [ho v hv]
+    rfl
+  · intro i op hop o ho'
+    have hi := ipG_getOp_lt hop
+    have : i = 0 ∨ i = 1 ∨ i = 2 ∨ i = 3 ∨ i = 4 := by omega
+    rcases this with rfl | rfl | rfl | rfl | rfl <;>
+      simp [getOp, getNode, mkRun, ipG] at hop <;> subst hop <;>
+      simp [opOutputs] at ho' <;> subst ho' <;> rfl
+
+theorem ip_example_assumptions : Assumptions ipOps ipG (fun _ => 0) ipReqs :=
+  { noCaptures := rfl
+    unique := ipG_unique
+    opContract := Executor.sumOps_contract _ _ _ (fun i => by split <;> simp) (fun _ _ => rfl)
+    wf := ipRun_wf }
+
+/-- The operator scheduled second really runs in place on the caller's value, and which one that
+is depends on the plan: `[3,4]` takes `x` in place at operator 4, `[4,3]` at operator 3. -/
+theorem ip_example_in_place :
+    ((Executor.runPlan ipOps (mkRun ipG (fun _ => 0) { ins := [(0, true, 10)], outs := [2, 1] })
+        Executor.nocap [3, 4] [2, 1]).steps.map (fun t => (t.op, t.rip))) = [(3, false), (4, true)] ∧
+    ((Executor.runPlan ipOps (mkRun ipG (fun _ => 0) { ins := [(0, true, 10)], outs := [2, 1] })
+        Executor.nocap [4, 3] [2, 1]).steps.map (fun t => (t.op, t.rip))) = [(4, false), (3, true)] := by
+  decide
+
+/-- `c25_T2_sequence_exec` applied (the second request hits the cache with `[3, 4]`, alone it
+plans `[4, 3]`), and the values. -/
+theorem ip_example_T2 :
+    SeqEquivX (runSeqX ipOps ipG (fun _ => 0) none ipReqs)
+      (ipReqs.map (fun q => (runReqX ipOps ipG (fun _ => 0) none q).1)) :=
+  c25_T2_sequence_exec_fresh ipOps ipG (fun _ => 0) ipReqs ip_example_assumptions
+
+theorem ip_example_values :
+    createPlan ipG [0] [2, 1] (cacheOpts false) = .ok [4, 3] ∧
+    runSeqX ipOps ipG (fun _ => 0) none ipReqs = [.ok [13, 14], .ok [14, 13]] ∧
+    ipReqs.map (fun q => (runReqX ipOps ipG (fun _ => 0) none q).1) = [.ok [13, 14], .ok [14, 13]] := by
   decide
 
 end Example
